@@ -1,0 +1,25 @@
+//! Verification-only seams, compiled only with `--cfg blockwatch_verif`.
+//!
+//! With the cfg off this module does not exist and the shipped behaviour is unchanged. With the
+//! cfg on and no factory installed, [`build_runtime`] behaves exactly like
+//! `tokio::runtime::Runtime::new()`.
+use std::sync::Mutex;
+use tokio::runtime::Runtime;
+
+type RuntimeFactory = Box<dyn Fn() -> std::io::Result<Runtime> + Send + Sync>;
+
+static RUNTIME_FACTORY: Mutex<Option<RuntimeFactory>> = Mutex::new(None);
+
+/// Installs (or clears) the factory used to build the Tokio runtime of the async validators.
+pub fn set_runtime_factory(factory: Option<RuntimeFactory>) {
+    *RUNTIME_FACTORY.lock().unwrap_or_else(|e| e.into_inner()) = factory;
+}
+
+/// Builds the Tokio runtime for the async validators via the installed factory (if any).
+pub fn build_runtime() -> std::io::Result<Runtime> {
+    let guard = RUNTIME_FACTORY.lock().unwrap_or_else(|e| e.into_inner());
+    match guard.as_ref() {
+        Some(factory) => factory(),
+        None => Runtime::new(),
+    }
+}
